@@ -312,6 +312,10 @@ RULES = [
 ]
 
 
+from . import shared
+RULES = RULES + shared.bundle('C02', [], ['weights'])
+
+
 def run(tier="quick", replay=None):
     return run_check(
         "C02", RULES, tier=tier, replay=replay,
